@@ -1,3 +1,4 @@
+mod stress;
 mod area_builder;
 mod area_green;
 mod area_red;
@@ -64,10 +65,12 @@ fn main() {
             let seed: u64 = arg(&args, "--seed").and_then(|s| s.parse().ok()).unwrap_or(0);
             let tier = arg(&args, "--tier").unwrap_or_else(|| "quick".into());
             let out = arg(&args, "--out").expect("--out DIR");
-            conc::run_conc(what, seed, &tier, &out);
+            if what == "intern" {
+                stress::run(seed, &tier, &out);
+            } else {
+                conc::run_conc(what, seed, &tier, &out);
+            }
         }
-        Some("conc-debug") => conc::debug_one(),
-        Some("conc-debug2") => conc::debug_random(),
         Some("leakcheck") => {
             // run the session three times; after a warm-up the live byte count must not move
             let ops = args.get(2).expect("leakcheck <ops.txt>");
